@@ -2810,3 +2810,27 @@ T("C07", "twin-outedges-unpacked", UT,
   "    return set(\n        edge[0]\n        for edge in graph.out_edges(nodes)\n        if edge[1] in nodes_to_check\n    )",
   "    return {tail for tail, head in graph.out_edges(nodes) if head in nodes_to_check}",
   "tuple unpacking + set comprehension")
+
+# ---- merge-point handler (R5.21 / R1.25); each has a demonstration under
+# /verif/mutant_demos/<id>/ (triaged after the random families showed no
+# difference: hang, exception or a lost W-merge)
+M("C05", "mp-counter-not-reset", WALK,
+  "            logic_block.merge_counter = 0\n            # handle case of impossible and/or merge",
+  "            # handle case of impossible and/or merge",
+  "R5.21", "the stuck counter survives the stuck round (hang)")
+M("C05", "mp-counter-reset-to-one", WALK,
+  "            logic_block.merge_counter = 0\n            # handle case of impossible and/or merge",
+  "            logic_block.merge_counter = 1\n            # handle case of impossible and/or merge",
+  "R5.21", "the search for the flagged path never advances (hang)")
+M("C05", "mp-clears-other-paths-flags", WALK,
+  "                    if merge_node == next_node_class:\n                        logic_block.impossible_and_or_merges[index] = False",
+  "                    if merge_node != next_node_class:\n                        logic_block.impossible_and_or_merges[index] = False",
+  "R5.21", "flags of the paths that were NOT advanced are cleared")
+M("C05", "mp-flags-not-cleared", WALK,
+  "                    if merge_node == next_node_class:\n                        logic_block.impossible_and_or_merges[index] = False",
+  "                    if merge_node == next_node_class:\n                        pass",
+  "R5.21", "a later valid merge of the advanced paths is lost")
+M("C05", "mp-stuck-rotate-args-crossed", WALK,
+  "                return logic_block.rotate_path(\n                    previous_node_class, previous_puml_node\n                )",
+  "                return logic_block.rotate_path(\n                    previous_puml_node, previous_node_class\n                )",
+  "R5.21", "model node and diagram node stored in each other's list")
